@@ -419,7 +419,9 @@ def gen_third_party(rng, is_fd=None, nsides=None, max_files=6):
             elif r < 0.35 and size >= 255 and size % 255 == 0:
                 f["lastbytes"] = 0    # a last sector holding 0 bytes: one more sector than the content needs
             files.append(f)
-        sides.append({"files": files, "deleted": rng.choice([0, 0, 1, 3]), "extra_reserved": rng.sample([0, 1, 2, 80, 159], rng.choice([0, 0, 1, 2])),
+        # sometimes all 112 entries were used once and some were deleted since: no never-used entry is left
+        ndel = rng.choice([0, 0, 1, 3]) if rng.random() > 0.08 else 112 - len(files)
+        sides.append({"files": files, "deleted": ndel, "extra_reserved": rng.sample([0, 1, 2, 80, 159], rng.choice([0, 0, 1, 2])),
                       "filler": rng.choice([0xE5, 0x00, 0xFF, 0x41]), "fat0": rng.choice([0, 0, 0xFF]), "fat_tail": rng.choice([0, 0, 0xFF]),
                       "order": rng.choice(["asc", "desc", "random"]), "frag": rng.random() < 0.5, "spread": rng.choice([False, True, "dense", "dense"])})
     return {"is_fd": is_fd, "nsides": nsides, "seed": rng.randint(0, 1 << 30), "sides": sides}
